@@ -289,7 +289,9 @@ impl LevelManifest {
 			levels_vec.len()
 		);
 
-		// Validate last_sequence matches the maximum sequence number across all tables
+		// Validate last_sequence against the maximum sequence number across all tables.
+		// The tables may hold less than last_sequence (compaction can drop the newest
+		// entries, e.g. tombstones at the bottom level, or every table), never more.
 		let computed_max_seq = levels_vec
 			.iter()
 			.flat_map(|level| level.tables.iter())
@@ -297,7 +299,7 @@ impl LevelManifest {
 			.max()
 			.unwrap_or(0);
 
-		if computed_max_seq != last_sequence {
+		if computed_max_seq > last_sequence {
 			return Err(Error::LoadManifestFail(format!(
 				"Manifest last_sequence mismatch: stored={}, computed from tables={}",
 				last_sequence, computed_max_seq
